@@ -70,7 +70,9 @@ func drawHistory(t *rapid.T) HCase {
 		if rapid.IntRange(0, 9).Draw(t, "edit?") > 0 {
 			f := genFile(t, pool, 8, true)
 			s.Edit = &f
-			s.DSec = rapid.SampledFrom([]int64{0, 0, 0, 0, 1, 2, 3600}).Draw(t, "dsec")
+			// the new version's mtime may also be OLDER than the previous one's (a prepared file moved into place,
+			// a restored backup, cp -p): any different mtime is a change
+			s.DSec = rapid.SampledFrom([]int64{0, 0, 0, 0, 1, 2, 3600, -1, -2, -3600}).Draw(t, "dsec")
 			s.DNs = rapid.OneOf(rapid.Int64Range(1, 1000), rapid.Int64Range(1, 90_000_000)).Draw(t, "dns")
 		}
 		s.Reloads = rapid.SampledFrom([]int{0, 1, 1, 1, 1, 2}).Draw(t, "reloads")
